@@ -4,7 +4,7 @@ from __future__ import annotations
 import itertools
 import random
 
-from .. import models
+from .. import models, wire
 from ..oracles import C01Monitor, success_end_state, trace_summary
 from ..world import InternalError, Runner, World
 
@@ -133,6 +133,13 @@ def gen_cases(tier, seed):
     return cases
 
 
+def stray_eofs(w, since):
+    """On a link which loses and duplicates nothing no EOF PDU can reach a receiver which has already closed that transaction (the entity
+    shell would have to answer it): such an EOF was emitted for a transaction that should not have one (or twice)."""
+    strays = [wire.short(e["d"]) for e in w.log.events if e["seq"] >= since and e["kind"] == "tx_shell" and e["side"] == "D" and e["d"].get("kind") == "ACK_EOF"]
+    return [{"clause": "eof-pdu-for-a-transaction-the-receiver-had-closed-on-a-perfect-link", "shell_answers": strays[:3]}] if strays else []
+
+
 def run_sequence(case):
     """several put requests, one after the other, on the same pair of handlers"""
     cfg = dict(case["cfg"], metadata_only=False)
@@ -187,6 +194,7 @@ def run_sequence(case):
             v = success_end_state(w, r, outcome, since=mark)
             if r.proto_exc:
                 v.append({"clause": "api-call-raised-protocol-exception", "exc": r.proto_exc[:5]})
+            v += stray_eofs(w, mark)
             for x in v:
                 x["transfer"] = i
                 x["kind"] = kind
@@ -233,6 +241,7 @@ def run_case(case):
             viol += success_end_state(w, r, outcome)
             if r.proto_exc:
                 viol.append({"clause": "api-call-raised-protocol-exception", "exc": r.proto_exc[:5]})
+            viol += stray_eofs(w, 0)
         viol += mon.viol
         # the FD PDUs seen by the receiver tile the file with the effective segment length
         obs["cases_" + cfg["mode"] + ("_closure" if cfg["closure"] else "")] = 1
